@@ -427,6 +427,88 @@ func stalledBurst(c *ctx, n int) {
 		"pre": pre, "obs0": obs0, "steps": h.steps})
 }
 
+// stalledAck: the connection stalls (Send blocks) while the acknowledgement of a response waits in the request queue
+// and more lookups of ANOTHER type miss than the queue holds. Newer requests supersede older ones only within their own
+// type: when the connection resumes the acknowledgement must still reach the control plane, exactly once (C02).
+func stalledAck(c *ctx, n int, bad bool) {
+	w, err := newWorld(worldOpts{ndsNotRequired: true, fetchTimeout: time.Millisecond})
+	if err != nil {
+		fmt.Println("hist: world:", err)
+		return
+	}
+	defer w.close()
+	h := &histRun{c: c, w: w}
+	pre := []interface{}{obj{"o": "startup-lds", "stamp": inboundStamp}}
+	obs0 := h.observe(0)
+	var res string
+	h.step(obj{"o": "get", "rt": "eds", "n": "e1"}, func() { res = w.get(rtOf("eds"), "e1") })
+	h.steps[len(h.steps)-1].(obj)["obs"].(obj)["get"] = res
+	names := make([]string, n)
+	for i := range names {
+		names[i] = fmt.Sprintf("b%04d", i)
+	}
+	gate := make(chan struct{})
+	w.ads.mu.Lock()
+	w.ads.streams[len(w.ads.streams)-1].sendGate = gate
+	w.ads.mu.Unlock()
+	slots := [][3]string{{"good", "e1", "e1#1"}}
+	anys := []*anypb.Any{anyStamped("eds", "e1", "e1#1")}
+	if bad {
+		slots = append(slots, [3]string{"bad", "", ""})
+		anys = append(anys, &anypb.Any{TypeUrl: urlOf("eds"), Value: []byte{0xff, 0xff, 0xff}})
+	}
+	h.step(obj{"o": "stalled-ack", "rt": "eds", "v": "v1", "nonce": "n1", "slots": slotsJSON(slots), "first": "s0", "brt": "cds", "names": names}, func() {
+		_ = w.get(rtOf("cds"), "s0") // its request is taken by the sender, which blocks in Send
+		w.waitFor(func() bool { return w.m.VerifQueueLen() == 0 }, 5*time.Second)
+		w.feed(mkResp(urlOf("eds"), "v1", "n1", anys))
+		// the receiver handles the response; its acknowledgement waits in the queue behind the stalled Send
+		w.waitFor(func() bool {
+			w.ads.mu.Lock()
+			s := w.ads.streams[len(w.ads.streams)-1]
+			back := s.waiting && len(s.inbox) == 0
+			w.ads.mu.Unlock()
+			return back && w.m.VerifQueueLen() == 1
+		}, 5*time.Second)
+		done := make(chan struct{})
+		var returned int64
+		go func() {
+			for _, nm := range names {
+				_ = w.get(rtOf("cds"), nm)
+				atomic.AddInt64(&returned, 1)
+			}
+			close(done)
+		}()
+		last, stable := int64(-1), 0
+		for stable < 40 {
+			select {
+			case <-done:
+				stable = 1 << 30
+			case <-time.After(5 * time.Millisecond):
+				if r := atomic.LoadInt64(&returned); r == last {
+					stable++
+				} else {
+					last, stable = r, 0
+				}
+			}
+		}
+		w.ads.mu.Lock()
+		for _, s := range w.ads.streams {
+			s.sendGate = nil
+		}
+		w.ads.mu.Unlock()
+		close(gate)
+		select {
+		case <-done:
+		case <-time.After(30 * time.Second):
+			w.hung = true
+		}
+	})
+	uni := obj{"lds": []string{xdsresource.ReservedLdsResourceName}, "rds": []string{}, "cds": []string{}, "eds": []string{"e1"}}
+	c.count("stalled-ack", 1)
+	c.emit(obj{"op": "hist", "cfg": obj{"nds": false, "ns": "default", "dom": "cluster.local"}, "universe": uni,
+		"pre": pre, "obs0": obs0, "steps": h.steps})
+}
+
 // stalledReconnect: a stream failure racing lookups (C04). The connection stalls with one request in flight, the
 // stream fails, the receiver reconnects (drain + publish) while the sender is still stuck in Send on the dead stream,
 // k more lookups miss (their Watch enqueues requests after the drain), then the stalled Send returns. Whatever the
@@ -550,16 +632,26 @@ func init() {
 		runHistories(c, histProfile{steps: 40, pFault: 3, pBad: 10, pUnsolicited: 25, pGet: 40, sendFail: false}, 60*c.budget)
 	}
 	props["C02"] = func(c *ctx) {
+		stalledAck(c, 1040, false)
+		stalledAck(c, 1040, true)
 		runHistories(c, histProfile{steps: 40, pFault: 2, pBad: 40, pUnsolicited: 15, pGet: 30}, 60*c.budget)
 	}
 	props["C03"] = func(c *ctx) {
 		stalledBurst(c, 1040)
+		// a stream failure racing ONE lookup: the sender takes either the queued request first (it goes to the dead stream,
+		// so the re-subscription must carry the change) or the new stream first; both orders occur over the repetitions
+		for i := 0; i < 10*c.budget && !c.expired(); i++ {
+			stalledReconnect(c, 1+i%2)
+		}
 		runHistories(c, histProfile{steps: 50, pFault: 6, pBad: 10, pUnsolicited: 10, pGet: 60}, 50*c.budget)
 	}
 	props["C04"] = func(c *ctx) {
 		stopFlood(c, 1030)
 		for i := 0; i < 6*c.budget && !c.expired(); i++ {
 			stalledReconnect(c, 3+c.rng.intn(5))
+		}
+		for i := 0; i < 6*c.budget && !c.expired(); i++ {
+			stalledReconnect(c, 1+i%2)
 		}
 		outage(c, 1)
 		outage(c, 3)
